@@ -33,10 +33,14 @@ def _classes():
             return None
 
     class StubYield(DetSigYield):
-        """prescribed yields for the sources of one (dataset, group)"""
+        """prescribed yields for the sources of one (dataset, group); only public members are (re)defined, the
+        base-class constructor (which wants a Dataset, a flux model, …) is not used"""
         def __init__(self, Y):
             self.Y = np.asarray(Y, dtype=np.float64)
-            self._param_names = ('gamma',)
+
+        @property
+        def param_names(self):
+            return ('gamma',)
 
         def sources_to_recarray(self, sources):
             return np.empty((len(sources),), dtype=[('ra', np.double)])
@@ -45,14 +49,38 @@ def _classes():
             return (self.Y.copy(), dict())
 
     class StubYieldService(DetSigYieldService):
+        """holds a prescribed (n_datasets, n_groups) array of yields; every public member the weight services use
+        is redefined here, so no private attribute of the base class is relied on"""
         def __init__(self, shg_mgr, arr):
-            self._set_shg_mgr(shg_mgr)
-            self._dataset_list = []
-            self._data_list = []
-            self._arr = arr
+            self.verif_mgr = shg_mgr
+            self.verif_arr = arr
+
+        @property
+        def shg_mgr(self):
+            return self.verif_mgr
+
+        @property
+        def arr(self):
+            return self.verif_arr
+
+        @property
+        def n_datasets(self):
+            return self.verif_arr.shape[0]
+
+        @property
+        def n_shgs(self):
+            return self.verif_arr.shape[1]
+
+        @property
+        def dataset_list(self):
+            return []
+
+        @property
+        def data_list(self):
+            return []
 
         def change_shg_mgr(self, shg_mgr, ppbar=None):
-            self._set_shg_mgr(shg_mgr)
+            self.verif_mgr = shg_mgr
 
     class RecordingDsGen(SignalGenerator):
         """per-dataset generator: records the requested number and returns that many rows;
@@ -213,6 +241,8 @@ class TwinRandom(object):
         self._twin = np.random.RandomState(seed)
         self.us = []
         self.choice_calls = []
+        self.poisson_draws = []
+        self.other_draws = []
         self.budget = budget
 
     def random(self, size=None):
@@ -226,7 +256,8 @@ class TwinRandom(object):
     random_sample = random
 
     def choice(self, a, size=None, replace=True, p=None):
-        assert p is not None and replace
+        if p is None or not replace:
+            return self.__getattr__('choice')(a, size=size, replace=replace, p=p)
         p = np.asarray(p, dtype=np.float64)
         res = self._rs.choice(a, size=size, replace=replace, p=p)
         u = self._twin.random_sample(size)
@@ -235,20 +266,46 @@ class TwinRandom(object):
         return res
 
     def poisson(self, lam, size=None):
-        raise AssertionError('poisson draws are outside the modelled part (call with poisson=False)')
+        """the Poisson draw of the total is numpy's (not modelled): delegate to both states and record it"""
+        res = self._rs.poisson(lam, size)
+        self._twin.poisson(lam, size)
+        self.poisson_draws.append(res)
+        return res
+
+    def __getattr__(self, name):
+        """any other primitive a rewritten implementation might use (multinomial, randint, …): forward to both
+        states so that they stay in step; such draws are not recorded as uniform deviates (`other_draws` says so)"""
+        if name.startswith('__'):
+            raise AttributeError(name)
+        f, g = getattr(self._rs, name), getattr(self._twin, name)
+
+        def call(*a, **kw):
+            self.other_draws.append(name)
+            g(*a, **kw)
+            return f(*a, **kw)
+        return call
 
 
-class TwinRSS(object):
-    """stands in for RandomStateService (only `.random` is used by the generators)"""
-    def __init__(self, seed):
-        self.random = TwinRandom(seed)
+_RSS = {}
 
 
-def make_rss(seed):
-    """a real RandomStateService whose RandomState is replaced by the recording twin"""
-    from skyllh.core.random import RandomStateService
-    rss = RandomStateService(seed)
-    rss._random = TwinRandom(seed)
-    if not isinstance(rss.random, TwinRandom):          # attribute name changed: fall back to duck typing
-        return TwinRSS(seed)
-    return rss
+def make_rss(seed, budget=300000):
+    """a RandomStateService whose public `random` property is the recording twin (subclass overriding the
+    public property; no private attribute of RandomStateService is touched)"""
+    if not _RSS:
+        from skyllh.core.random import RandomStateService
+
+        class TwinRSS(RandomStateService):
+            def __init__(self, seed, budget=300000):
+                self.verif_twin = TwinRandom(seed, budget)
+                super().__init__(seed)
+
+            @property
+            def random(self):
+                return self.verif_twin
+
+            @random.setter
+            def random(self, r):
+                pass
+        _RSS['cls'] = TwinRSS
+    return _RSS['cls'](seed, budget)
